@@ -526,6 +526,74 @@ def enum_small(tier):
                              "tol": None}}
 
 
+@st.composite
+def spelling_case(draw):
+    """a long axis (up to 70 000 cells) and the many ways to spell an index or a point"""
+    g = draw(gen.geom(nmax=4, maxcells=64, exps=(-9, 3), big_offsets=False))
+    nd = len(g["n"])
+    ax = draw(st.integers(0, nd - 1))
+    big = draw(st.sampled_from([70, 130, 200, 260, 20000, 40000, 70000]))
+    lo, hi = min(g["p1"][ax], g["p2"][ax]), max(g["p1"][ax], g["p2"][ax])
+    cs = (hi - lo) / g["n"][ax]
+    new_hi = lo + big * cs
+    if g["p1"][ax] == hi:
+        g["p1"][ax] = new_hi
+    else:
+        g["p2"][ax] = new_hi
+    g["n"][ax] = big
+    idx = [draw(st.integers(0, n - 1)) for n in g["n"]]
+    idx[ax] = draw(st.sampled_from([0, 63, 64, 127, 128, 129, 255, 256, big - 1, big // 2]))
+    idx[ax] = min(idx[ax], big - 1)
+    return {"g": g, "axis": ax, "index": idx, "frac": [draw(st.integers(1, 19)) / 20 for _ in range(nd)]}
+
+
+INT_TYPES = ["int8", "uint8", "int16", "uint16", "int32", "uint32", "int64", "uint64"]
+
+
+def check_spellings(case):
+    """index -> centre and point -> index do not depend on how the index / point is spelt: Python ints, numpy
+    integers of every width that can hold the index, tuples, lists, arrays (of that dtype), 0-d arrays, numpy floats"""
+    import discretisedfield as df
+
+    g = case["g"]
+    lat = gen.lattice_of(g)
+    mesh = df.Mesh(region=gen.build_region(g), n=tuple(int(i) for i in g["n"]))
+    idx = tuple(int(i) for i in case["index"])
+    ref = np.asarray(mesh.index2point(idx), dtype=float)
+    want = np.array([float(x) for x in lat.centre(idx)])
+    scale = np.array([max(abs(float(lat.pmin[d])), abs(float(lat.pmax[d]))) for d in range(lat.ndim)])
+    if np.any(np.abs(ref - want) > 64 * np.finfo(float).eps * scale):
+        raise Violation("index2point-centre", f"index {idx}: {ref} vs {want}")
+    for tname in INT_TYPES:
+        info = np.iinfo(tname)
+        if max(idx) > info.max:
+            continue
+        t = np.dtype(tname).type
+        spellings = {"array": np.array(idx, dtype=tname), "tuple-of-numpy": tuple(t(i) for i in idx),
+                     "list-of-numpy": [t(i) for i in idx]}
+        if lat.ndim == 1:
+            spellings["bare-numpy"] = t(idx[0])
+        for how, spelt in spellings.items():
+            try:
+                got = np.asarray(mesh.index2point(spelt), dtype=float)
+            except (TypeError, ValueError, IndexError) as e:
+                raise Violation(f"index-spelling-rejected:{tname}", f"index2point({spelt!r}) [{how}] raises {e}") from None
+            if not np.array_equal(got, ref):
+                raise Violation(f"index-spelling:{tname}", f"index2point of {idx} spelt as {how} of {tname}: {got}, with "
+                                                           f"Python ints: {ref}")
+            tag(f"int-type={tname}")
+    p = tuple(float(lat.pmin[d] + (F(idx[d]) + F(case["frac"][d])) * lat.cell[d]) for d in range(lat.ndim))
+    base = tuple(mesh.point2index(p))
+    for how, spelt in {"list": list(p), "array": np.array(p), "numpy-floats": tuple(np.float64(x) for x in p),
+                       "float32-exact": None}.items():
+        if spelt is None:
+            continue
+        got = tuple(mesh.point2index(spelt))
+        if got != base:
+            raise Violation("point-spelling", f"point2index of {p} spelt as {how}: {got} vs {base}")
+    require(all(isinstance(i, int) for i in base), "point2index-python-ints", f"{[type(i).__name__ for i in base]}")
+
+
 SUBS = [
     Sub("after-mutation", check_after_mutation, mutated_case(), nontrivial=nontrivial, quick=400, thorough=2500),
     Sub("lattice", check_lattice, lattice_case(), nontrivial=nontrivial, quick=400, thorough=3000),
@@ -534,6 +602,7 @@ SUBS = [
     Sub("reject", check_reject, reject_case(), nontrivial=nontrivial, quick=800, thorough=5000),
     Sub("region-contains", check_contains, contains_case(), nontrivial=nontrivial, quick=800, thorough=5000),
     Sub("mesh-by-cell", check_bycell, bycell_case(), nontrivial=nontrivial, quick=800, thorough=5000),
+    Sub("spellings", check_spellings, spelling_case(), quick=300, thorough=2000),
 ]
 
 
